@@ -109,6 +109,8 @@ func Gen(seed uint64, tier string) any {
 			d.Fault = "othername"
 		case x < 94:
 			d.Fault = "parentname"
+		case x < 97:
+			d.Fault = "sweep"
 		}
 		if d.Fault != "none" && core.Chance(r, 10) {
 			d.Time = core.Pick(r, "incept", "expire")
@@ -407,6 +409,56 @@ func runIn(sc *Scenario, res *core.Result, verbose bool) {
 		key := kp.key
 		tampered, covered := false, true
 		desc := d.Fault
+		if d.Fault == "sweep" {
+			// every single-bit alteration and every truncation >= header size of the
+			// signed octets, at an instant inside the window (skipped for large
+			// messages and for the slow verifiers)
+			alg := kp.key.Algorithm
+			if inWindow && len(signed) <= 400 && alg != dns.ECDSAP384SHA384 && sc.Key < 12 {
+				res.Bump("fault.exhaustive_sweep")
+				for p := 0; p < 8*len(signed); p++ {
+					c := append([]byte(nil), signed...)
+					c[p/8] ^= 1 << uint(p%8)
+					vrr := &dns.SIG{}
+					vrr.Hdr = dns.RR_Header{Name: ".", Rrtype: dns.TypeSIG, Class: dns.ClassANY}
+					vrr.Algorithm, vrr.KeyTag, vrr.SignerName = sig.Algorithm, sig.KeyTag, sig.SignerName
+					um := new(dns.Msg)
+					if um.Unpack(append([]byte(nil), c...)) == nil && len(um.Extra) > 0 {
+						if s, ok := um.Extra[len(um.Extra)-1].(*dns.SIG); ok {
+							vrr = s
+						}
+					}
+					verr, pan := verify(vrr, kp.key, c)
+					if pan != "" {
+						res.Fail("Q4", "verify-panic:"+firstLine(pan), "SIG.Verify panicked with bit %d of octet %d flipped: %s", p%8, p/8, pan)
+						return
+					}
+					res.Bump("oracle.Q3_sweep_positions")
+					covered := !(p/8 >= srr.Start && p/8 < srr.RdStart)
+					if covered && verr == nil {
+						res.Fail("Q3", "tampered-verified:flip:sweep", "verification succeeded with bit %d of octet %d of the signed octets flipped (%s, %d octets)", p%8, p/8, algName, len(signed))
+						return
+					}
+				}
+				for k := 12; k < len(signed); k++ {
+					vrr := &dns.SIG{}
+					vrr.Hdr = dns.RR_Header{Name: ".", Rrtype: dns.TypeSIG, Class: dns.ClassANY}
+					vrr.Algorithm, vrr.KeyTag, vrr.SignerName = sig.Algorithm, sig.KeyTag, sig.SignerName
+					vrr.Inception, vrr.Expiration = sig.Inception, sig.Expiration
+					verr, pan := verify(vrr, kp.key, append([]byte(nil), signed[:k]...))
+					if pan != "" {
+						res.Fail("Q4", "verify-panic:"+firstLine(pan), "SIG.Verify panicked on the first %d of %d signed octets: %s", k, len(signed), pan)
+						return
+					}
+					res.Bump("oracle.Q4_sweep_positions")
+					if verr == nil {
+						res.Fail("Q3", "tampered-verified:trunc:sweep", "verification succeeded on the first %d of %d signed octets", k, len(signed))
+						return
+					}
+				}
+			}
+			continue
+		}
 		switch d.Fault {
 		case "flip":
 			rg, ok := reg[d.Region]
